@@ -248,6 +248,12 @@ pub fn large_chunker_strategy() -> impl Strategy<Value = ChunkerCfg> {
         2 => Just(ChunkerCfg { algo: Algo::RollSum, bits: 15, min: 16 * 1024, max: 16 * 1024 * 1024, window: 64 }),
         2 => Just(ChunkerCfg { algo: Algo::BuzHash, bits: 15, min: 16 * 1024, max: 16 * 1024 * 1024, window: 16 }),
         1 => (1usize..=3_000_000).prop_map(|n| ChunkerCfg { algo: Algo::FixedSize, bits: 0, min: 0, max: n, window: 0 }),
+        // windows far above the usual 16..64 bytes (a valid configuration: window <= max)
+        2 => (prop_oneof![Just(Algo::RollSum), Just(Algo::BuzHash)], 6u32..=14, prop_oneof![Just(4096usize), Just(11770), Just(11771), Just(16384), Just(70_000), 257usize..=100_000], 0usize..=50_000, 0usize..=300_000)
+            .prop_map(|(algo, bits, window, min, extra)| {
+                let max = (min + extra).max(window);
+                ChunkerCfg { algo, bits, min, max, window }
+            }),
         4 => (
             prop_oneof![Just(Algo::RollSum), Just(Algo::BuzHash)],
             8u32..=22,
